@@ -5,6 +5,7 @@ import Model.C05.Codec
 import Model.C05.Tx
 import Model.C05.PsbtMap
 import Model.C05.Misc
+import Model.C05.P2p
 import Generated.VarInt
 import Generated.Wire
 open Btc Btc.Wire
@@ -45,6 +46,18 @@ def txExtra (t : Tx) : String :=
 def blockExtra (b : Block) : String :=
   s!" ssize={b.size false} weight={b.weight} stripped={toHex (hash256 (b.serW false))} segwit={b.isSegwit}"
 
+def rNetAddr (a : NetAddr) : String := s!"{a.services}/{toHex a.ip}/{a.port}"
+def rInventory (i : Nat × Bytes) : String := s!"{i.1}:{toHex i.2}"
+def rVersion (v : Version × Option Bool) : String :=
+  let r := match v.2 with | none => "-" | some false => "0" | some true => "1"
+  s!"{v.1.version}/{v.1.services}/{v.1.timestamp}/{rNetAddr v.1.addrRecv}/{rNetAddr v.1.addrFrom}/{v.1.nonce}/{toHex v.1.userAgent}/{v.1.startHeight}/{r}"
+
+def runVersion (mode : String) (b : Bytes) : String :=
+  if mode != "o" then "bad-op" else
+  match Version.parseAll b with
+  | .error e => s!"err {e.name}"
+  | .ok v => s!"ok {rVersion v} rest=_ ser={toHex (Version.serAll v)} size={(Version.serAll v).length}"
+
 def none' {α : Type} (_ : α) : String := ""
 
 def handle : List String → String
@@ -69,6 +82,17 @@ def handle : List String → String
       | "block.parse" => runCodec block
           (fun bl => s!"{rHeader bl.header} n={bl.txs.length} txs={toHex (hash256 ((bl.txs.map rTx).foldl (fun acc s => acc ++ s.toUTF8.toList) []))}")
           blockExtra mode b
+      | "msg.parse" => runCodec (msg hash256) (fun m => s!"{toHex m.magic}/{toHex m.command}/{toHex m.payload}") none' mode b
+      | "ping.parse" => runCodec nonce8 toString none' mode b
+      | "feefilter.parse" => runCodec feeFilter toString none' mode b
+      | "netaddr.parse" => runCodec netAddr rNetAddr none' mode b
+      | "addr.parse" => runCodec addr (fun l => joinWith ";" (l.map fun a => s!"{a.1}@{rNetAddr a.2}")) none' mode b
+      | "inventory.parse" => runCodec inventory rInventory none' mode b
+      | "inv.parse" => runCodec inv (fun l => joinWith ";" (l.map rInventory)) none' mode b
+      | "getheaders.parse" => runCodec locator
+          (fun l => s!"{l.1}/[{joinWith "," (l.2.1.map toHex)}]/{toHex l.2.2}") none' mode b
+      | "headers.parse" => runCodec headers (fun l => joinWith ";" (l.map fun h => rHeader h.1)) none' mode b
+      | "version.parse" => runVersion mode b
       | "xkey.parse" => runCodec xkey rXKey none' mode b
       | "psbtmap.parse" => Psbt.runMap mode b
       | "psbtmap.norm" => Psbt.runNorm mode b
